@@ -11,7 +11,7 @@ def run(tier, seed):
     rep = Report("C15", tier, seed, level="proof")
     from contracts import compiler_c as CC
 
-    run_contracts(rep, [CC.tag_contract()])
+    run_contracts(rep, [CC.tag_contract(), CC.compile_code_contract()])
     # bounded stand-in for the whole scanner (line filter, tag list, last-one-wins): options the real scanner hands to the
     # compiler (observed by rebinding compiler.Compiler in this process) against an independent reading of the property
     q = tier == "quick"
